@@ -24,6 +24,9 @@ type Resp struct {
 	IDDelta int32
 	// Stall (with Cut >= 0): after the prefix the broker goes silent instead of dropping the connection
 	Stall bool
+	// Pause (with Cut >= 0): the broker writes Cut bytes, waits Pause, then writes the
+	// rest of the frame and carries on — a slow link, nothing is lost
+	Pause time.Duration
 	// SizeSet: the size prefix of the frame is Size instead of len(Body)+4 (a lying size prefix)
 	SizeSet bool
 	Size    int32
@@ -141,15 +144,32 @@ func (b *Broker) serve() {
 	// responses are written by a second goroutine so that the broker keeps reading requests while a response waits
 	// for the client to read it (net.Pipe has no buffer; a real socket has one)
 	type outFrame struct {
-		f     []byte
-		cut   bool
-		stall bool
+		f       []byte
+		cut     bool
+		stall   bool
+		pauseAt int
+		pause   time.Duration
 	}
 	wq := make(chan outFrame, 256)
 	defer close(wq)
 	go func() {
 		for o := range wq {
 			b.srv.SetWriteDeadline(time.Now().Add(10 * time.Second))
+			if o.pause > 0 {
+				n, err := b.srv.Write(o.f[:o.pauseAt])
+				b.mu.Lock()
+				b.written += n
+				b.mu.Unlock()
+				if err != nil {
+					b.srv.Close()
+					for range wq {
+					}
+					return
+				}
+				time.Sleep(o.pause)
+				o.f = o.f[o.pauseAt:]
+				b.srv.SetWriteDeadline(time.Now().Add(10 * time.Second))
+			}
 			n, err := b.srv.Write(o.f)
 			b.mu.Lock()
 			b.written += n
@@ -185,7 +205,7 @@ func (b *Broker) serve() {
 			if cut {
 				raw = raw[:rawCut]
 			}
-			wq <- outFrame{raw, cut, false}
+			wq <- outFrame{f: raw, cut: cut}
 			if cut {
 				for i := 0; i < 2000; i++ {
 					if _, err := b.srv.Read(hdr[:1]); err != nil {
@@ -240,10 +260,15 @@ func (b *Broker) serve() {
 		}
 		b.mu.Unlock()
 		cut := resp.Cut >= 0 && resp.Cut < len(f)
+		if cut && resp.Pause > 0 {
+			// the writer goroutine writes the prefix, sleeps, writes the rest: later responses stay behind it
+			wq <- outFrame{f: f, pauseAt: resp.Cut, pause: resp.Pause}
+			continue
+		}
 		if cut {
 			f = f[:resp.Cut]
 		}
-		wq <- outFrame{f, cut, resp.Stall}
+		wq <- outFrame{f: f, cut: cut, stall: resp.Stall}
 		if cut && resp.Stall {
 			// silent from here on: requests are read and ignored until the client gives up / Stop
 			buf := make([]byte, 4096)
